@@ -45,6 +45,18 @@ var c02Reqs = []harness.ReqSpec{
 	// 14-15: fields larger than the whole HPACK table (4096): a query string and a user-agent of 5000 octets
 	{Tag: "long", Method: "GET", Path: "/long?q=" + valOfLen(5000)},
 	{Tag: "longua", Method: "GET", Path: "/longua", Headers: [][2]string{{"User-Agent", valOfLen(5000)}, {"X-L", "l"}}},
+	// 16-18: header lists that need one, two and several CONTINUATION frames under the server's 16384-octet frame size
+	{Tag: "h20", Method: "GET", Path: "/h20", Headers: manyFields(20)},
+	{Tag: "h40", Method: "POST", Path: "/h40", Headers: manyFields(40), Body: []byte("after-a-long-head")},
+	{Tag: "h90", Method: "GET", Path: "/h90", Headers: manyFields(90)},
+}
+
+func manyFields(n int) [][2]string {
+	var out [][2]string
+	for i := 0; i < n; i++ {
+		out = append(out, [2]string{fmt.Sprintf("X-Many-%03d", i), fmt.Sprintf("%03d-", i) + valOfLen(996)})
+	}
+	return out
 }
 
 func bytesOf(c byte, n int) []byte {
